@@ -14,6 +14,7 @@ import (
 	"net/netip"
 	"os"
 	"path/filepath"
+	"regexp"
 	"strings"
 	"sync"
 
@@ -268,6 +269,8 @@ func (e *Env) derivedPatterns() []string {
 	}
 	return out
 }
+
+var tmpSuffix = regexp.MustCompile(`\.tmp\d+`)
 
 var allActions = []string{"get", "info", "put", "activate", "delete"}
 
@@ -746,6 +749,11 @@ func (e *Env) Exec(c *Caller, op model.Op) model.Res {
 		}
 	}
 	res.Class, res.ErrText = classify(err)
+	// error texts can carry the run's scratch directory and the random
+	// suffix of a temporary file: keep them out of logs and comparisons
+	if res.ErrText != "" {
+		res.ErrText = tmpSuffix.ReplaceAllString(strings.ReplaceAll(res.ErrText, e.Dir, "<dir>"), ".tmpN")
+	}
 	if res.Class != model.OK {
 		// a failed call must not carry a value; keep what came back so the
 		// oracle can see it
